@@ -228,6 +228,18 @@ def nanoemoji_font(rng, fmt, v0_expressible=False, bitmaps=False):
     return data, dict(format=fmt, config={k: str(v) for k, v in over.items()}, sources=[s[1] for s in srcs], codepoints=[list(s[2]) for s in srcs])
 
 
+def overhang_font(rng, fmt):
+    """artwork that leaves the advance box on every side (built without clipping): the added table must keep it"""
+    H = '<svg xmlns="http://www.w3.org/2000/svg" viewBox="0 0 100 100">'
+    srcs = [
+        (build.filename_for((0x1F600,)), H + '<path d="M-30,20 L60,20 L60,70 L-30,70 Z" fill="#cc0000"/><path d="M40,-25 L80,-25 L60,30 Z" fill="#0000cc"/></svg>', (0x1F600,)),
+        (build.filename_for((0x1F601,)), H + '<path d="M20,60 L130,60 L130,120 L20,120 Z" fill="#008800"/><path d="M10,10 L30,10 L30,30 L10,30 Z" fill="#333333"/></svg>', (0x1F601,)),
+    ]
+    over = dict(color_format=fmt, upem=1000, ascender=800, descender=-200, width=1000, clip_to_viewbox=False, keep_glyph_names=rng.random() < 0.5, output_file="Font.ttf")
+    font, cfg, picos, data = build.build_inprocess(over, srcs)
+    return data, dict(format=fmt, config={k: str(v) for k, v in over.items()}, sources=[s_[1] for s_ in srcs], overhang=True)
+
+
 def run_maximum_color(data, flags):
     from fontTools import ttLib
 
@@ -410,7 +422,7 @@ def compare_stripped(kept, stripped_data):
 
 
 def run_e2e(report, n, rng, jobs=6):
-    kinds = ["glyf_colr_1", "picosvg", "third1", "glyf_colr_0", "untouchedsvg", "third0", "third_svg", "third_nospace", "cff_colr_1", "cff2_colr_1"]
+    kinds = ["glyf_colr_1", "picosvg", "third1", "glyf_colr_0", "untouchedsvg", "third0", "third_svg", "third_nospace", "cff_colr_1", "cff2_colr_1", "overhang_colr", "overhang_svg"]
     plans = []
     for i in range(n):
         kind = kinds[i % len(kinds)]
@@ -421,6 +433,8 @@ def run_e2e(report, n, rng, jobs=6):
         if sub.random() < 0.4:
             flags += ["--bitmaps"]
         strip = sub.random() < 0.5
+        if kind.startswith("overhang"):
+            flags = [f_ for f_ in flags if f_ != "--bitmaps"]  # a bitmap is cut to the advance box by construction
         if kind.startswith("cff") and i < 10 and "--bitmaps" not in flags:
             flags += ["--bitmaps"]  # the first charstring fonts always take the bitmap path too (F20)
         plans.append((i, kind, sub, flags, strip))
@@ -441,6 +455,8 @@ def run_e2e(report, n, rng, jobs=6):
                 data, info = third_party_font(sub, sub.choice([0, 1]), space=False)
             elif kind.startswith("third"):
                 data, info = third_party_font(sub, int(kind[-1]))
+            elif kind.startswith("overhang"):
+                data, info = overhang_font(sub, "glyf_colr_1" if kind.endswith("colr") else "picosvg")
             else:
                 data, info = nanoemoji_font(sub, kind, v0_expressible="0" in flags, bitmaps="--bitmaps" in flags)
         except Exception as ex:
@@ -552,7 +568,7 @@ def main(argv):
     run_stems(report, 300 if tier == "quick" else 3000, rng)
     if common.vo_ok("Model/GlyphmapPairs.v"):
         run_glyphmap_rows(report, 18 if tier == "quick" else 240, random.Random(rng.getrandbits(48)))
-    run_e2e(report, 20 if tier == "quick" else 320, rng, jobs=8)
+    run_e2e(report, 24 if tier == "quick" else 360, rng, jobs=8)
     if not st["proof_ok"] and not report.violations:
         report.violation("proof", dict(kind="proof", theorem="Props/C12.v", detail=report.notes.get("proof_failure")), found_input=False)
     report.open_obligations = [
